@@ -166,6 +166,12 @@ async fn run_async(case: &Value, client: UnixStream) -> (Vec<Value>, Vec<i32>, S
             out.push(json!({"do": name, "r": "spawned"}));
             continue;
         }
+        if name == "abort" {
+            // the caller stops waiting without the library noticing (outer timeout / select! / task abort): no scrub
+            let r = match spawned.pop() { Some(j) => { j.abort(); let _ = j.await; json!("aborted") }, None => json!("nothing-spawned") };
+            out.push(json!({"do": name, "r": r}));
+            continue;
+        }
         if name == "join" {
             let r = match spawned.pop() { Some(j) => j.await.unwrap_or(json!("join-error")), None => json!("nothing-spawned") };
             out.push(json!({"do": name, "r": r}));
@@ -176,6 +182,7 @@ async fn run_async(case: &Value, client: UnixStream) -> (Vec<Value>, Vec<i32>, S
             "clone_handle" => { let c = handles[cur].clone(); handles.push(c); cur = handles.len() - 1; json!("ok") }
             "use_handle" => { cur = st["n"].as_u64().unwrap() as usize; json!("ok") }
             "with_timeout" => { ldap.with_timeout(Duration::from_millis(st["ms"].as_u64().unwrap())); json!("ok") }
+            "with_search_options" => { ldap.with_search_options(ldap3::SearchOptions::new().deref(ldap3::DerefAliases::Finding).typesonly(true).timelimit(9).sizelimit(70)); json!("ok") }
             "with_controls" => { ldap.with_controls(raw_ctrls(&st["ctrls"])); json!("ok") }
             "simple_bind" => match guard(ldap.simple_bind(&s(&st["dn"]), &s(&st["pw"]))).await { Some(r) => res_json(r, result_json), None => json!("hang") },
             "delete" => match guard(ldap.delete(&s(&st["dn"]))).await { Some(r) => res_json(r, result_json), None => json!("hang") },
@@ -257,6 +264,7 @@ fn run_sync(case: &Value, client: UnixStream) -> (Vec<Value>, Vec<i32>, String) 
         let name = st["do"].as_str().unwrap_or("").to_string();
         let r: Value = match name.as_str() {
             "with_timeout" => { conn.with_timeout(Duration::from_millis(st["ms"].as_u64().unwrap())); json!("ok") }
+            "with_search_options" => { conn.with_search_options(ldap3::SearchOptions::new().deref(ldap3::DerefAliases::Finding).typesonly(true).timelimit(9).sizelimit(70)); json!("ok") }
             "with_controls" => { conn.with_controls(raw_ctrls(&st["ctrls"])); json!("ok") }
             "simple_bind" => res_json(conn.simple_bind(&s(&st["dn"]), &s(&st["pw"])), result_json),
             "delete" => res_json(conn.delete(&s(&st["dn"])), result_json),
